@@ -79,6 +79,11 @@ def base_coverage(run, r, au, extra_rule=''):
         v = lean.get('%d CERT' % i, '?').split(' ')[0]
         certs[v] = certs.get(v, 0) + 1
     nstates = sum(s['states'] for s in r['stats'].values())
+    try:
+        import assemble_tie
+        run.coverage['leaf_assembly_predicted'] = assemble_tie.tie_corpus(r['corpus'], r['caps'], r['accepted'])
+    except Exception as e:   # a predictive tie never decides a property
+        run.coverage['leaf_assembly_predicted'] = dict(error=str(e)[:200])
     run.coverage.update(dict(
         obligations=au['obligations'] + certs.get('OK', 0) + certs.get('OKL', 0) + certs.get('FAIL', 0),
         discharged=au['discharged'] + certs.get('OK', 0) + certs.get('OKL', 0),
